@@ -176,6 +176,16 @@ func lockDrive[K comparable](k *engine.Case, name string, grp, single lockAPI[K]
 				return true
 			}
 			ix := subset(c, 5)
+			if op == 5 && r.Intn(3) == 0 {
+				// a read lock may be taken several times by one call: the unsharded locker
+				// counts every occurrence of a repeated key, so must the sharded one
+				ix = append([]int(nil), ix...)
+				for n := 1 + r.Intn(2); n > 0; n-- {
+					ix = append(ix, ix[r.Intn(len(ix))])
+				}
+				r.Shuffle(len(ix), func(a, b int) { ix[a], ix[b] = ix[b], ix[a] })
+				k.Count("lock_multi_acquire_repeated_key", 1)
+			}
 			for _, i := range ix {
 				if !check(i, "before "+nm) {
 					return false
@@ -220,6 +230,16 @@ func lockDrive[K comparable](k *engine.Case, name string, grp, single lockAPI[K]
 				return true
 			}
 			ix := subset(c, 5)
+			if op == 7 && r.Intn(3) == 0 {
+				// release a key as often as it is read-held in one call
+				ix = append([]int(nil), ix...)
+				for _, i := range ix[:len(ix):len(ix)] {
+					if st[i].r >= 2 && r.Intn(2) == 0 {
+						ix = append(ix, i)
+						k.Count("lock_multi_release_repeated_key", 1)
+					}
+				}
+			}
 			ks, s := keysOf(ix)
 			if op == 6 {
 				grp.unlocks(ks)
